@@ -6,7 +6,10 @@ K: deterministic schedules replayed on the real code (requests paused at the fou
    cache-file gates) against the model evaluated in Coq on the same schedule.
 Stress (NOT proof: schedules are not controlled): real Threading/Forking servers with TLS,
    bursts of simultaneous mixed-protocol clients, compared with the sequential answers;
-   liveness and reaping afterwards."""
+   liveness and reaping afterwards.
+Failing clients (failing_clients_job): clients whose TLS negotiation / connection fails, next to good clients;
+   deterministic preemption of the failing client's worker at every event of its error path while a good client is
+   accepted (threading server), plus uncontrolled rounds on both servers."""
 import json
 
 from common import Check, coq_eval, impl_run_parallel, impl_run
@@ -145,6 +148,63 @@ def stress_job(rng, tier):
             "config": {"handlers.HandlerMultiplexer": {"handlers": c11.FULL_HANDLERS}},"op": "c14_stress", "tree": tree, "servertypes": ["ThreadingTCPServer", "ForkingTCPServer"],
             "requests": reqs, "bursts": [burst(sizes[0], 3), burst(sizes[1], 4), staggered(32), staggered(32)] + [burst(n, 2) for n in sizes[2:]],
             "probe": ["gopher /d", "http /", "gopherplus$ /d/sub", "wap /d"], "cold_each_burst": True}
+
+
+FAIL_KINDS = ["tls-garbage", "tls-first-byte-then-close", "tls-truncated-hello-then-close", "tls-hello-then-reset",
+              "tls-old-version-hello", "tls-no-shared-cipher", "tls-client-rejects-certificate", "reset-before-first-byte"]
+
+
+def failing_clients_job(rng, tier):
+    """Clients whose connection fails before a request exists (TLS negotiations that never complete, resets) next to
+    well-behaved ones.  Deterministic part: the failing client's worker is stopped at every event of its error path
+    while a good client is accepted; rounds: a few of each kind at almost the same time, many times."""
+    tree = c10.initial_tree() + [{"path": "top.txt", "data": "top\n", "mtime": c10.T0},
+                                 {"path": "d/sub/deep.txt", "data": "deep\n", "mtime": c10.T0},
+                                 {"path": "d/mid.bin", "data": "\x00\x01\x02z" * 5000, "mtime": c10.T0}]
+    reqs = {}
+    for key, proto, gp in c10.PROTOKEYS:
+        for sel in ["/d", "/", "/d/a.txt", "/d/mid.bin", "/nothing-here"]:
+            if sel == "/d/mid.bin" and key.startswith(("gopherplus", "sgopherplus", "wap")):
+                continue
+            data, tls = gen.request_bytes(proto, sel, gplus=gp)
+            reqs[key + " " + sel] = {"data": gen.lat(data), "tls": tls}
+    names = sorted(reqs)
+    # a sample of the (protocol, selector) grid: the sequential answers of every request are fetched from every server
+    plain = sorted(rng.sample([n for n in names if not reqs[n]["tls"]], 9))
+    secure = sorted(rng.sample([n for n in names if reqs[n]["tls"]], 7))
+    names = sorted(plain + secure)
+    reqs = {n: reqs[n] for n in names}
+
+    def good_pick():
+        nm = rng.choice(secure) if rng.random() < 0.45 else rng.choice(plain)
+        # phase: what the good client has done by the time the stopped worker is released --
+        # 0 connected only, 1 (TLS) negotiated, 2 first byte of the request sent
+        p = {"during": nm, "phase": rng.choice([0, 0, 1, 2]), "settle": rng.choice([0, 0.02])}
+        if rng.random() < 0.4:
+            p["before"] = rng.choice(names)
+        return p
+
+    kinds = list(FAIL_KINDS)
+    rng.shuffle(kinds)
+    preempt = [{"fail": k, "good": [good_pick() for _ in range(4)]} for k in kinds]
+    nrounds = 300 if tier == "thorough" else 80
+    rounds = []
+    for _ in range(nrounds):
+        nf, ng = rng.choice([1, 2, 2, 3]), rng.choice([1, 2, 2])
+        failing = [{"kind": rng.choice(FAIL_KINDS), "at": round(rng.random() * 0.004, 4)} for _ in range(nf)]
+        good = []
+        for _ in range(ng):
+            g = {"name": rng.choice(names), "at": round(rng.random() * 0.006, 4), "handshake_first": rng.random() < 0.6}
+            if rng.random() < 0.4:
+                # slow: its descriptor stays open while the others come and go
+                g["send_delay"], g["split_at"] = round(0.005 + rng.random() * 0.03, 4), rng.choice([0, 1, 1, 3])
+                if g["split_at"]:
+                    g["handshake_first"] = True      # the first bytes of a TLS client's request travel inside the session
+            good.append(g)
+        rounds.append({"failing": failing, "good": good})
+    return {"op": "c14_failing_clients", "tree": tree, "requests": reqs, "servertypes": ["ThreadingTCPServer", "ForkingTCPServer"],
+            "preempt": preempt, "max_points": 24, "rounds": rounds, "switch_interval": 1e-5, "client_timeout": 5,
+            "probe": [plain[0], secure[0], plain[-1]]}
 
 
 def lazy_job(rng):
@@ -397,6 +457,73 @@ def run(tier):
             found = True
             chk.violation({"what": "%s: workers not reaped after the bursts" % st, "after": a, "job": sj},
                           tag="not-reaped:" + st)
+    # ---------------- clients whose connection fails, next to good ones ----------------
+    fj = failing_clients_job(rng, tier)
+    fr = impl_run([fj])[0]
+    if not fr["ok"]:
+        raise RuntimeError(fr["err"] + "\n" + fr.get("tb", ""))
+    fcov = {}
+    for st, d in fr["res"].items():
+        pre, rd = d.get("preempt"), d.get("rounds")
+        fcov[st] = {"error_path_preemption": pre, "rounds": rd, "after": d["after"], "mismatches": len(d["mismatches"])}
+        if pre:
+            chk.count(("failing-preempt", st, pre["trials"]), nontrivial=pre["descriptor_reused"] > 0, n=pre["trials"])
+        if rd:
+            chk.count(("failing-rounds", st, rd["good_clients"]), nontrivial=True, n=rd["good_clients"])
+        seen = set()
+        for m in d["mismatches"]:
+            noresp = bool(m.get("empty")) or bool(m.get("error"))
+            if m["phase"] == "sequential":
+                kind = "sequential-unstable"
+            elif m["phase"].startswith("error-path"):
+                kind = "failing-client-preempt-" + ("no-response" if noresp else "mismatch")
+            else:
+                kind = "failing-client-" + ("no-response" if noresp else "mismatch")
+            tag = "%s:%s" % (kind, st)
+            found = True
+            if tag in seen:
+                continue
+            seen.add(tag)
+            if m["phase"].startswith("error-path"):
+                wh = m["worker_stopped_at"]
+                what = ("%s: a client fails its connection (%s); its worker is stopped at the %s event in %s (line %d, event %d "
+                        "of its error path); meanwhile another client connects and is accepted; the worker is released and "
+                        "finishes; then %s asks %s and does not get the answer it gets alone (%s)"
+                        % (st, m["failing_client"], wh["event"], wh["function"], wh["line"], wh["point"], m["wrong_answer_of"],
+                           m["request"], m["error"] or ("empty reply" if m["empty"] else "different bytes")))
+                note = "deterministic: the interleaving is forced by a trace hook installed by the harness's launcher"
+            else:
+                what = ("%s: a good client's response differs from the sequential answer while other clients fail their "
+                        "connections (%s, request %s)" % (st, m["phase"], m["request"]))
+                note = "the interleaving of this phase is not controlled; re-running may not reproduce it"
+            chk.violation({"what": what, "mismatch": m, "all_mismatches": d["mismatches"][:8], "note": note,
+                           "server_stderr_tail": d.get("server_stderr_tail", ""), "job": fj}, tag=tag)
+        for phase, a in d["after"].items():
+            if not a["probe_ok"] or not a["serving"]:
+                found = True
+                chk.violation({"what": "%s does not answer correctly after the failing clients (%s)" % (st, phase), "after": a,
+                               "job": fj}, tag="server-dead-after-failing-clients:" + st)
+            elif (a["threads"] or 0) > 2 or a.get("active_children") or a.get("child_processes_running") or a.get("zombies"):
+                found = True
+                chk.violation({"what": "%s: workers not reaped after the failing clients (%s)" % (st, phase), "after": a,
+                               "job": fj}, tag="not-reaped-after-failing-clients:" + st)
+        lb = d.get("left_behind") or {}
+        if lb.get("survivors") or lb.get("port_still_accepting"):
+            found = True
+            chk.violation({"what": "%s: processes left behind after shutdown" % st, "left_behind": lb, "job": fj},
+                          tag="rogue-process:" + st)
+    cov["failing_clients"] = fcov
+    cov["failing_clients"]["note"] = (
+        "clients whose connection fails before a request exists: TLS first byte + garbage, a lone first byte then close, half a "
+        "genuine ClientHello then close, ClientHello then reset, ClientHello announcing SSL 3.0, no shared cipher, client "
+        "refusing the certificate, reset before the first byte.  (1) threading server, deterministic: a trace hook (installed "
+        "by the launcher, nothing in /repo) numbers the events of a worker in pygopherd/server.py from the first exception "
+        "on and stops the worker at event k, for every k of every kind; while it is stopped a good client (plaintext or TLS; "
+        "only connected / negotiated / first byte sent; sometimes a slow good client is already connected) is accepted -- the "
+        "kernel gives it the lowest free descriptor number; the worker is released and finishes; the good clients then send "
+        "their requests.  (2) threading (switch interval 10 us) and forking server: rounds of 1-3 failing and 1-2 good "
+        "clients within a few ms, some good clients slow, few descriptors open at a time.  Oracle: every good client gets "
+        "its sequential answer; server alive and reaped afterwards")
     cov["stress"] = stress
     cov["violations_by_tag"] = reported
     cov["stress"]["note"] = ("stress, not proof: real ThreadingTCPServer and ForkingTCPServer (TLS enabled, testdata/demo.crt, "
@@ -462,6 +589,13 @@ def replay(path):
         print("REPRODUCED" if bad else "not reproduced")
         return 1 if bad else 0
     n = sum(len(v["mismatches"]) for v in d.values())
+    if job["op"] == "c14_failing_clients":
+        for k, v in d.items():
+            print(k, {"error_path_preemption": v.get("preempt"), "rounds": v.get("rounds"), "after": v["after"]})
+            for m in v["mismatches"][:3]:
+                print("  ", {x: m[x] for x in ("phase", "failing_client", "worker_stopped_at", "request", "error", "empty") if x in m})
+        print("REPRODUCED" if n else "not reproduced")
+        return 1 if n else 0
     print({k: (v["bursts"], v["after"]) for k, v in d.items()})
     print("REPRODUCED" if n else "not reproduced (stress: the interleaving is not controlled)")
     return 1 if n else 0
